@@ -17,6 +17,7 @@ const (
 	GBeg                 // start of file
 	GEnd                 // end of file
 	GBlk                 // before the '}' of a non-empty block: optional separators
+	GBlkBeg              // after the '{' of a non-empty block: blanks, line breaks, comments and empty statements
 )
 
 // Layout chooses the text of each gap.
@@ -61,6 +62,7 @@ var sepChoices = []string{"\n", "\n", ";", "; ", "\n\n", " # c\n", ";\n", "\n;",
 var begChoices = []string{"", "", "\n", " ", "# head\n", "\n\n", ";", "\r\n"}
 var endChoices = []string{"", "", "\n", " ", "# tail", ";", "\n\n", " # é"}
 var blkChoices = []string{"", " ", "\n", ";", "\n  ", "; # c\n", ";;", "\r\n"}
+var blkBegChoices = []string{"", " ", "\n", ";", "", "; ", "\n", ";\n", "\n;", "#c\n", ";;", " \n "}
 
 func (l *Choices) next() int {
 	if len(l.C) == 0 {
@@ -87,6 +89,8 @@ func (l *Choices) Gap(c GapClass) string {
 		s = endChoices[k%len(endChoices)]
 	case GBlk:
 		s = blkChoices[k%len(blkChoices)]
+	case GBlkBeg:
+		s = blkBegChoices[k%len(blkBegChoices)]
 	}
 	if strings.Contains(s, "\n") {
 		l.NL++
@@ -165,7 +169,7 @@ func (p *printer) block(n *Node, body []*Node) {
 	for i, s := range body {
 		c := GS
 		if i == 0 {
-			c = GN
+			c = GBlkBeg
 		}
 		p.stmt(c, s)
 	}
